@@ -23,6 +23,8 @@ The theorems say that no input reaches it, for all inputs and all histories:
   session: the shared listener's event loop never returns, and a datagram that authenticates as one user
   leaves every other user's session bit-for-bit unchanged;
 * `tree_insert_types_ok`, `typed_errors_only`: the guards of the remaining panic sites;
+* the model follows the code as merged: a wrong-direction segment is discarded on the packet transport and
+  closes the session on the stream transport; stream data must carry the session's next sequence number;
 * `socks_parse_total`, `socks_roundtrip`, `socks_truncated_rejected`, …: the SOCKS5 request / reply /
   address / UDP-header parsers are total, exact and reject every truncation.
 
@@ -320,11 +322,12 @@ example : (udpStep .server twoUsers crossUserAck.1 crossUserAck.2).outcome = .dr
 /-- the same with a close request: before the repair a panic, now a drop (bob cannot close alice's session) -/
 example : (udpStepWith false .server twoUsers { proto := 4, tsOk := true, sid := 7777 } crossUserAck.2).outcome = .panic ∧
     (udpStep .server twoUsers { proto := 4, tsOk := true, sid := 7777 } crossUserAck.2).outcome = .drop := by decide
-/-- the second face of the same defect: a WRONG-DIRECTION segment from bob (sent from the address his own
+/-- the second face of that defect — a WRONG-DIRECTION segment from bob (sent from the address his own
     sessions live at, so no discovery-time direction check applies) naming alice's session used to close
-    alice's session; now it is dropped -/
+    alice's session — is gone twice over: the owner check drops it, and since `fix: drop wrong-direction
+    segments on the packet transport` `Session.input` itself discards it -/
 example : (udpStepWith false .server twoUsers { proto := 7, tsOk := true, sid := 7777 }
-      { src := 1, keyUser := some "bob", body := { len := 0, payloadAuth := false } }).outcome = .closeSession ∧
+      { src := 1, keyUser := some "bob", body := { len := 0, payloadAuth := false } }).outcome = .drop ∧
     (udpStep .server twoUsers { proto := 7, tsOk := true, sid := 7777 }
       { src := 1, keyUser := some "bob", body := { len := 0, payloadAuth := false } }).outcome = .drop := by decide
 /-- the owner's own traffic still flows: alice's ack is delivered, her close request closes her session -/
@@ -332,10 +335,13 @@ example : (udpStep .server twoUsers { proto := 8, tsOk := true, sid := 7777 }
       { src := 99, keyUser := some "alice", body := { len := 0, payloadAuth := false } }).outcome = .deliver ∧
     (udpStep .server twoUsers { proto := 4, tsOk := true, sid := 7777 }
       { src := 99, keyUser := some "alice", body := { len := 0, payloadAuth := false } }).outcome = .closeSession := by decide
-/-- a wrong-direction data segment from the session's own address closes that session; from a fresh
-    address (user discovery) it is dropped; an unknown protocol number is dropped -/
+/-- UDP: a wrong-direction data segment is discarded whether it comes from the session's own address
+    (by `Session.input`) or from a fresh one (at user discovery) — a reflected datagram cannot tear a
+    session down; the session stays open; an unknown protocol number is dropped -/
 example : (udpStep .server twoUsers { proto := 7, tsOk := true, sid := 1111 }
-      { src := 1, keyUser := some "bob", body := { len := 0, payloadAuth := false } }).outcome = .closeSession ∧
+      { src := 1, keyUser := some "bob", body := { len := 0, payloadAuth := false } }).outcome = .drop ∧
+    (udpStep .server twoUsers { proto := 7, tsOk := true, sid := 1111 }
+      { src := 1, keyUser := some "bob", body := { len := 0, payloadAuth := false } }).table = twoUsers ∧
     (udpStep .server twoUsers { proto := 7, tsOk := true, sid := 1111 }
       { src := 5, keyUser := some "bob", body := { len := 0, payloadAuth := false } }).outcome = .drop ∧
     (udpStep .server twoUsers { proto := 200, tsOk := true, sid := 1111 }
@@ -355,6 +361,20 @@ example :
                         ({ proto := 7, tsOk := true, sid := 5 }, { keyUser := some "bob", body := { len := 0, payloadAuth := false } }),
                         ({ proto := 3, tsOk := true, sid := 5 }, { keyUser := some "bob", body := { len := 0, payloadAuth := false } })]).1
       = [.createSession, .closeSession, .closeUnderlay] := by decide
+/-- TCP: data must carry the next sequence number of its session (the open request took 0): 1 is
+    delivered, then 2; a gap (7) fails the session — the application gets an error, not the wrong bytes —
+    and the connection lives on; on UDP any sequence number is absorbed -/
+example :
+    (tcpRun .server {} [({ proto := 2, tsOk := true, sid := 5 }, { keyUser := some "bob", body := { len := 0, payloadAuth := false } }),
+                        ({ proto := 6, tsOk := true, sid := 5, seq := 1 }, { keyUser := some "bob", body := { len := 0, payloadAuth := false } }),
+                        ({ proto := 10, tsOk := true, sid := 5, seq := 2, leMode := 1, leMask := 0x0f0f0f0f }, { keyUser := some "bob", body := { len := 0, payloadAuth := false } }),
+                        ({ proto := 6, tsOk := true, sid := 5, seq := 7 }, { keyUser := some "bob", body := { len := 0, payloadAuth := false } }),
+                        ({ proto := 6, tsOk := true, sid := 5, seq := 3 }, { keyUser := some "bob", body := { len := 0, payloadAuth := false } })]).1
+      = [.createSession, .deliver, .deliver, .closeSession, .drop] ∧
+    (tcpStep .server {} { proto := 2, tsOk := true, sid := 5, seq := 9 } { keyUser := some "bob", body := { len := 0, payloadAuth := false } }).outcome = .createSession ∧
+    ((tcpStep .server {} { proto := 2, tsOk := true, sid := 5, seq := 9 } { keyUser := some "bob", body := { len := 0, payloadAuth := false } }).st.table.map (·.closed)) = [true] ∧
+    (udpStep .server twoUsers { proto := 6, tsOk := true, sid := 1111, seq := 4000000000 }
+      { src := 1, keyUser := some "bob", body := { len := 0, payloadAuth := false } }).outcome = .deliver := by decide
 /-- the hypotheses of `tcp_history_never_panics` are met by a client with two dialed sessions -/
 example : TcpInv .client { clientUser := "alice", table := [1001, 1002].map fun i => { id := i } } :=
   tcpInv_init .client "alice" (fun _ => by decide) [1001, 1002] (by decide)
